@@ -10,9 +10,9 @@ import (
 	"strings"
 	"time"
 
-	"verifharness/internal/gen"
-	"verifharness/internal/h"
-	"verifharness/internal/jws"
+	"verifharness/pkg/gen"
+	"verifharness/pkg/h"
+	"verifharness/pkg/jws"
 
 	"github.com/dunglas/mercure"
 	"go.uber.org/zap"
